@@ -72,6 +72,10 @@ func textOf(v ref.Val) (string, bool) {
 		return v.T, true
 	case 'I':
 		return strconv.FormatInt(v.I, 10), true
+	case 'F':
+		// keys and values are stored as text; a float is rendered the way
+		// str() renders it (six decimals) by PUT and by REMOVE alike
+		return strconv.FormatFloat(v.F, 'f', 6, 64), true
 	}
 	return "", false
 }
@@ -176,6 +180,9 @@ func c12PairPool() [][2]*ref.Expr {
 		// the same value text on two pairs, reading `key`
 		{s("a"), c12KeyDependent()},
 		{s("ab"), c12KeyDependent()},
+		// float-valued keys and values (a literal and a computed one)
+		{ref.Fl(1.5), s("x")},
+		{ref.Bin("*", ref.Fl(0.5), ref.N(3)), ref.Fl(2.25)},
 	}
 }
 
@@ -197,6 +204,7 @@ func c12RemovePool() []*ref.Expr {
 	return []*ref.Expr{
 		s("a"), s("b"), s("ab"), s("zz"), ref.Bin("+", s("a"), s("b")), ref.Bin("+", ref.N(1), ref.N(1)),
 		ref.Bin("/", ref.N(1), ref.Bin("-", ref.N(1), ref.N(1))),
+		ref.Fl(1.5), ref.Bin("*", ref.Fl(0.5), ref.N(3)), ref.Fl(2.0),
 	}
 }
 
@@ -704,7 +712,7 @@ func (c12) Info() core.Info {
 		ID:    "C12",
 		Title: "PUT and REMOVE apply exactly the stated writes, once, all-or-nothing",
 		Level: "model_checking",
-		Rule: "explicit-state search over the same 81-state space as C11: transitions = long `put` / `remove` lists (4..40 elements with duplicate keys in three patterns) and `put` with every list of 1..3 pairs from a pool of 12 pair expressions (literals, duplicate keys, concatenated and numeric keys, values that read `key`, function calls) plus 3 failing ones at every position, `remove` with every list of 1..3 keys from a pool of 7 (one failing), each under every poll word of length 1..4 over {Next,Batch} (quick: length <= 3 for 3-element lists) at batch sizes {1,32}, plus statically forbidden forms; every transition runs on the real plan over a clone of the state. Oracle: post-state = model (later duplicate wins; value sees its own key); the pairs/keys carried by the mutating calls, in call order, are exactly the evaluated list (each stated write once); no write on evaluation failure; no storage call and no row on later polls; a follow-up `select * where key = k` observes each write; forbidden forms are rejected with an empty call log. " +
+		Rule: "explicit-state search over the same 81-state space as C11: transitions = long `put` / `remove` lists (4..40 elements with duplicate keys in three patterns) and `put` with every list of 1..3 pairs from a pool of 14 pair expressions (literals, duplicate keys, concatenated and numeric keys, values that read `key`, function calls) plus 3 failing ones at every position, `remove` with every list of 1..3 keys from a pool of 10 (one failing), each under every poll word of length 1..4 over {Next,Batch} (quick: length <= 3 for 3-element lists) at batch sizes {1,32}, plus statically forbidden forms; every transition runs on the real plan over a clone of the state. Oracle: post-state = model (later duplicate wins; value sees its own key); the pairs/keys carried by the mutating calls, in call order, are exactly the evaluated list (each stated write once); no write on evaluation failure; no storage call and no row on later polls; a follow-up `select * where key = k` observes each write; forbidden forms are rejected with an empty call log. " +
 			"Non-trivial: the statement changes the state or fails at evaluation. Distinct: (state, statement, B, polls).",
 		Assumptions:      []string{"whether writes travel as Put or BatchPut is not prescribed (the property says 'exactly once')", "numbers written by PUT are compared as decimal integers only (no float rendering is documented)"},
 		CrashIsViolation: true,
